@@ -271,7 +271,8 @@ pub fn build_ctx(tables: &[TableData], cfg: &Value, workdir: &str) -> Result<Bui
     if layout == "mem" {
         let k = cfg.get("batches").and_then(|v| v.as_u64()).unwrap_or(1) as usize;
         for t in tables {
-            let batches: Vec<RecordBatch> = t.chunks(k).into_iter().filter(|(lo, hi)| hi > lo || k == 1).map(|(lo, hi)| t.batch(lo, hi)).collect();
+            let keep_empty = cfg.get("keep_empty").and_then(|v| v.as_bool()).unwrap_or(false);
+            let batches: Vec<RecordBatch> = t.chunks(k).into_iter().filter(|(lo, hi)| hi > lo || k == 1 || keep_empty).map(|(lo, hi)| t.batch(lo, hi)).collect();
             ctx.register_table(t.name.clone(), t.schema.clone(), batches);
         }
     } else {
